@@ -90,14 +90,16 @@ func TestWorker(t *testing.T) {
 		rc := &RunCtx{Property: prop, Mode: mode, Tier: tier, Seed: seed, Run: i, OnlyExec: -1,
 			Rec: &RunRecord{Run: i, Seed: seed}, WantSample: sampleEvery > 0 && i%sampleEvery == 0}
 		rc.CaseTape = NewTape(rs)
-		rc.execSeed = rs
-		if replay != nil {
+		if replay != nil && len(replay.CaseTape) > 0 {
 			rc.Replay = true
 			rc.CaseTape = ReplayTape(replay.CaseTape)
 			rc.ReplayExec = replay.ExecTape
 			rc.OnlyExec = replay.ExecIndex
 			rc.WantSample = true
 		}
+		// a replay file without tapes (process-exit / process-stuck) re-generates
+		// the run from (seed, run, mode)
+		rc.execSeed = uint64(rc.CaseTape.Choose(1 << 30)) // first draw: seed of the per-execution tapes
 		f(env, rc)
 		rc.finish()
 		b, err := json.Marshal(rc.Rec)
